@@ -61,7 +61,18 @@ class UnserExc(Exception):
         raise RuntimeError('unserializable exception')
 
 
-EXC = {'E1': E1, 'E2': E2, 'Unser': UnserExc}
+EXC = {'E1': E1, 'E2': E2, 'Unser': UnserExc, 'KeyError': KeyError}
+
+
+def _lib_exc():
+    from playback.exceptions import RecordingKeyError
+    EXC['RKE'] = RecordingKeyError
+
+
+try:
+    _lib_exc()
+except ImportError:
+    pass
 
 
 def _shared():
@@ -343,6 +354,10 @@ def _perform(target, step, obs):
     elif do == 'val':
         if obs is not None:
             obs.append(['ret', mkval(step['v'])])
+    elif do == 'mutarg':   # the service mutates / re-uses an object it has just passed to an intercepted call
+        last = [c for c in RT.calls if c['thread'] == threading.current_thread().name]
+        if last and last[-1]['args']:
+            mutate(last[-1]['args'][0], every=True)
     elif do == 'mut':
         if obs and obs[-1][0] == 'exc':
             RT.tls.last_exc.MUT = 1
@@ -755,6 +770,8 @@ def ref(prog, enabled=True, draw=None, save_raises=False, funcs=None):
         elif do == 'val':
             if obs is not None:
                 obs.append(['ret', mkval(step['v'])])
+        elif do == 'mutarg':
+            pass   # output arguments are captured by reference (no copy is promised): the reference does not model their later state
         elif do == 'mut':
             if obs:
                 mutate(obs[-1][1])
@@ -946,7 +963,8 @@ def ref_replay(R, prog2, funcs=None):
             counter[spec['alias']] += 1
             n = counter[spec['alias']]
             form = {'wa': list(args), 'wk': kw} if spec.get('handler') else {'args': list(args), 'kwargs': kw}
-            out['outputs'][(spec['alias'], n)] = canon(form)
+            if not (spec.get('handler') and step.get('fault') == 'handler'):
+                out['outputs'][(spec['alias'], n)] = canon(form)
             if (spec['alias'], n) in R['results']:
                 obs.append(val(R['results'][(spec['alias'], n)]))
             elif spec.get('fail', True):
@@ -961,6 +979,8 @@ def ref_replay(R, prog2, funcs=None):
                 call(s)
             elif do == 'val':
                 obs.append(['ret', mkval(s['v'])])
+            elif do == 'mutarg':
+                pass
             elif do == 'mut':
                 if obs:
                     mutate(obs[-1][1])
